@@ -309,6 +309,42 @@ Definition note_suffix (r : list Z) : accidental * option Z * nat * list Z :=
   let (d, s5) := read_dots s4 in
   (acc, len, d, s5).
 
+(* one command whose (upper-cased) command character c has been read; rec scans the rest of the string *)
+Definition lex_cmd (rec : list Z -> list cmd) (e : env) (c : Z) (r : list Z) : list cmd :=
+  if c =? 88 then                                               (* X: the substring is pasted in front *)
+    match parse_string e r with
+    | Ok (sub, r') => rec (sub ++ r')
+    | Err x => [CBad x]
+    | Host h => [CHost h]
+    | OutOfFuel => [CFuel]
+    end
+  else if c =? 78 then                                          (* N *)
+    res_cmd (parse_number e r)
+            (fun n rest => let (d, rest') := read_dots rest in CNum n d :: rec rest')
+  else if c =? 76 then res_cmd (parse_number e r) (fun n rest => CLen n :: rec rest)
+  else if c =? 84 then res_cmd (parse_number e r) (fun n rest => CTempo n :: rec rest)
+  else if c =? 79 then res_cmd (parse_number e r) (fun n rest => COct n :: rec rest)
+  else if c =? 62 then CUp :: rec r
+  else if c =? 60 then CDown :: rec r
+  else if ((65 <=? c) && (c <=? 71)) || (c =? 80) then
+    match note_suffix r with
+    | (acc, len, d, rest) =>
+        (if c =? 80 then CPause acc len d else CNote c acc len d) :: rec rest
+    end
+  else if c =? 77 then                                          (* M *)
+    match skip_blank r with
+    | [] => [CBad ifc]
+    | m :: r' =>
+        let u := upper m in
+        if u =? 78 then CFill FillN :: rec r'
+        else if u =? 76 then CFill FillL :: rec r'
+        else if u =? 83 then CFill FillS :: rec r'
+        else if u =? 70 then CFg true :: rec r'
+        else if u =? 66 then CFg false :: rec r'
+        else [CBad ifc]
+    end
+  else [CBad ifc].                                              (* includes V: no multivoice in this syntax *)
+
 (* one fuel unit per command read *)
 Fixpoint lex (fuel : nat) (e : env) (s : list Z) : list cmd :=
   match fuel with
@@ -318,49 +354,12 @@ Fixpoint lex (fuel : nat) (e : env) (s : list Z) : list cmd :=
       | [] => []
       | c0 :: r0 =>
           (* absorb one (and only one) semicolon; nothing after it falls through to the final else: IFC *)
-          let cr := if c0 =? 59 then
-                      match skip_blank r0 with
-                      | [] => None
-                      | c1 :: r1 => Some (upper c1, r1)
-                      end
-                    else Some (upper c0, r0) in
-          match cr with
-          | None => [CBad ifc]
-          | Some (c, r) =>
-              if c =? 88 then                                               (* X *)
-                match parse_string e r with
-                | Ok (sub, r') => lex f e (sub ++ r')
-                | Err x => [CBad x]
-                | Host h => [CHost h]
-                | OutOfFuel => [CFuel]
-                end
-              else if c =? 78 then                                          (* N *)
-                res_cmd (parse_number e r)
-                        (fun n rest => let (d, rest') := read_dots rest in CNum n d :: lex f e rest')
-              else if c =? 76 then res_cmd (parse_number e r) (fun n rest => CLen n :: lex f e rest)
-              else if c =? 84 then res_cmd (parse_number e r) (fun n rest => CTempo n :: lex f e rest)
-              else if c =? 79 then res_cmd (parse_number e r) (fun n rest => COct n :: lex f e rest)
-              else if c =? 62 then CUp :: lex f e r
-              else if c =? 60 then CDown :: lex f e r
-              else if ((65 <=? c) && (c <=? 71)) || (c =? 80) then
-                match note_suffix r with
-                | (acc, len, d, rest) =>
-                    (if c =? 80 then CPause acc len d else CNote c acc len d) :: lex f e rest
-                end
-              else if c =? 77 then                                          (* M *)
-                match skip_blank r with
-                | [] => [CBad ifc]
-                | m :: r' =>
-                    let u := upper m in
-                    if u =? 78 then CFill FillN :: lex f e r'
-                    else if u =? 76 then CFill FillL :: lex f e r'
-                    else if u =? 83 then CFill FillS :: lex f e r'
-                    else if u =? 70 then CFg true :: lex f e r'
-                    else if u =? 66 then CFg false :: lex f e r'
-                    else [CBad ifc]
-                end
-              else [CBad ifc]                               (* includes V: no multivoice in this syntax *)
-          end
+          if c0 =? 59 then
+            match skip_blank r0 with
+            | [] => [CBad ifc]
+            | c1 :: r1 => lex_cmd (lex f e) e (upper c1) r1
+            end
+          else lex_cmd (lex f e) e (upper c0) r0
       end
   end.
 
